@@ -238,6 +238,7 @@ def rule_r1_calls(chk, prog):
              'values reach only equality tests, logs, statistics, time '
              'limits or the private temporary file name')
     n = 0
+    _PKG[:] = [prog]
     for m in decision_modules(prog):
         for c in ast.walk(m.tree):
             if not isinstance(c, ast.Call):
@@ -265,6 +266,103 @@ def rule_r1_calls(chk, prog):
                 chk.check('C18.R1b', m.name, a, False,
                           'behaviour depends on the environment',
                           loc=m.loc(a))
+
+
+CONTENT_SINKS = ('write', 'writelines', 'send', 'put', 'append', 'add',
+                 'extend', 'insert', 'setdefault', 'update')
+
+
+def _ident_value_benign(m, f, e, depth):
+    """A process/thread identifier may become (part of) a file name, be
+    passed on as such, be stored and be compared for equality; it may not
+    become node text, file content, a container element, a key or an
+    operand of an ordering."""
+    if depth > 3:
+        return False, 'flow too long to follow'
+    # the enclosing text-building expression
+    t = e
+    while True:
+        p = getattr(t, '_parent', None)
+        if isinstance(p, (ast.FormattedValue, ast.JoinedStr)):
+            t = p
+            continue
+        if isinstance(p, ast.BinOp) and isinstance(p.op, (ast.Add, ast.Mod)):
+            t = p
+            continue
+        if isinstance(p, ast.Call) and t in p.args and (
+                (call_name(p) or '') in ('str', 'os.path.join', 'repr')
+                or (isinstance(p.func, ast.Attribute)
+                    and p.func.attr == 'format')):
+            t = p
+            continue
+        if isinstance(p, ast.Tuple) and isinstance(
+                getattr(p, '_parent', None), ast.BinOp):
+            t = p
+            continue
+        break
+    p = getattr(t, '_parent', None)
+    if isinstance(p, ast.keyword):
+        p = getattr(p, '_parent', None)
+    if isinstance(p, ast.Attribute) and p.value is t:
+        # an attribute of the value travels like the value
+        return _ident_value_benign(m, f, p, depth + 1)
+    if isinstance(p, ast.Compare):
+        if all(isinstance(o, (ast.Eq, ast.NotEq, ast.Is, ast.IsNot))
+               for o in p.ops):
+            return True, ''
+        return False, f'ordered: {unparse(p)[:40]}'
+    if isinstance(p, ast.Call):
+        nm = call_name(p) or ''
+        if nm.split('.')[-1] == 'Node':
+            return False, 'becomes node text'
+        if isinstance(p.func, ast.Attribute) and \
+                p.func.attr in CONTENT_SINKS:
+            return False, f'passed to .{p.func.attr}()'
+        if nm in ('print', 'sorted', 'min', 'max', 'hash'):
+            return False, f'passed to {nm}()'
+        return True, ''
+    if isinstance(p, ast.Return):
+        if f is None:
+            return False, 'returned at module level'
+        name = f.name
+        sites = []
+        for om in _PKG[0].pkg_modules() if _PKG else []:
+            for c in ast.walk(om.tree):
+                if isinstance(c, ast.Call) and (call_name(c) or '').split(
+                        '.')[-1] == name:
+                    sites.append((om, c))
+        for (om, c) in sites:
+            ok, why = _ident_value_benign(om, _fn(c), c, depth + 1)
+            if not ok:
+                return False, f'result of {name}(): {why}'
+        return True, ''
+    if isinstance(p, ast.Assign) and p.value is t:
+        for tg in p.targets:
+            if isinstance(tg, ast.Name):
+                scope = f if f is not None else m.tree
+                for u in ast.walk(scope):
+                    if isinstance(u, ast.Name) and u.id == tg.id and \
+                            isinstance(u.ctx, ast.Load):
+                        ok, why = _ident_value_benign(m, f, u, depth + 1)
+                        if not ok:
+                            return False, why
+            elif isinstance(tg, ast.Attribute):
+                for u in ast.walk(m.tree):
+                    if isinstance(u, ast.Attribute) and u.attr == tg.attr \
+                            and isinstance(u.ctx, ast.Load):
+                        ok, why = _ident_value_benign(m, _fn(u), u,
+                                                      depth + 1)
+                        if not ok:
+                            return False, why
+            else:
+                return False, f'stored into {unparse(tg)[:30]}'
+        return True, ''
+    if isinstance(p, ast.Expr):
+        return True, ''
+    return False, f'used in {unparse(p)[:40] if p is not None else "?"}'
+
+
+_PKG = []
 
 
 def _benign_use(m, f, c, label):
@@ -306,11 +404,10 @@ def _benign_use(m, f, c, label):
         return False, 'module level'
     q = f._qualname
     if label in ('os.getpid()', 'threading.get_ident()'):
-        if (m.name, q) in (('tmpfiles', 'get_tmp_filename'),
-                           ('debug_utils', 'Profiler.__init__'),
-                           ('nodeio', 'write_smtlib_to_file')):
-            return True, 'names a process-private file'
-        return False, 'used outside the private file name'
+        ok, why = _ident_value_benign(m, f, c, 0)
+        if ok:
+            return True, 'names a process-private file / compared only'
+        return False, f'used outside a private file name ({why})'
     if label == 'hash()':
         if (m.name, q) == ('nodes', 'Node.__init__'):
             return True, ('stored in the hash slot: read only by __hash__ '
